@@ -181,6 +181,16 @@ def templates(tier="quick"):
         T += _mk("rspfile_" + var[1:], [Variant("v0", [lib, Stmt("exe", ex=["lib"])])], tags=["rspfile", "names"], depth=2, js=(1, 2),
                  max_fault_stmts=1, edits_during=False)
 
+    # T13g the statement's dyndep file names, as an implicit input, a file the manifest already lists as an explicit one: the
+    # statement's $in (here: what goes into the response file) is still every explicit input
+    names2 = ["a.o", "b.o", "c.o"]
+    for var, sep in (("$in_newline", "\n"), ("$in", " ")):
+        lib = Stmt("lib", ex=names2, oo=["dd"], dyndep="dd", rsp=("lib.rsp", sep.join(names2)))
+        lib.rsp_manifest = var
+        from family_cycles import dyndep_text as _ddt0
+        T += _mk("rspfile_in_with_dyndep_repeating_an_input_" + var[1:], [Variant("v0", [lib, Stmt("exe", ex=["lib"])])], tags=["rspfile", "dyndep"],
+                 depth=2, js=(1, 2), max_fault_stmts=1, edits_during=False, files={"dd": _ddt0([("lib", [], ["c.o", "b.o"], False)])}, touch_only=("dd",))
+
     # T13e writing the response file (or creating a directory) fails: every file operation of a build with response files
     # in subdirectories is made to fail once -- nothing may start without what it needs
     vf = Variant("v0", [Stmt("out/x.o", ex=["s"]), Stmt("out/lib", ex=["out/x.o"], rsp=("out/lib.rsp", "out/x.o")),
@@ -584,5 +594,16 @@ def templates(tier="quick"):
                       tags=["missing-source", "dyndep", "fresh"]))
     T.append(scenario("missing_source_named_by_dyndep_file/built", "template", [v], files=ddf, ops=mops, init=[mb], depth=min(d, 3),
                       tags=["missing-source", "dyndep", "built"]))
+
+    # T32c ... and a source named only by an (existing) dyndep file, which the recorded dependencies of an up-to-date statement
+    # name too: still a missing source where the dyndep file names it (F38)
+    v = Variant("v0", [Stmt("a.o", ex=["a.c"], hidden=["gsrc"], deps="gcc"), Stmt("e", ex=["w"], oo=["dd"], dyndep="dd", extra_reads=["gsrc"]),
+                       Stmt("top", ex=["a.o", "e"])])
+    mops = [{"op": "rm", "path": "gsrc", "label": "rm source gsrc"}, {"op": "edit", "path": "w", "label": "edit w"},
+            {"op": "write", "path": "gsrc", "content": "gsrc-back\n", "label": "restore gsrc"}]
+    mb = len(mops)
+    mops += [ninja_op(j=1), ninja_op(j=2, k=0), ninja_op(targets=["e"], j=1)]
+    T.append(scenario("missing_source_named_by_dyndep_file_and_a_record/built", "template", [v], files={"dd": _ddt([("e", [], ["gsrc"], False)])},
+                      ops=mops, init=[mb], depth=min(d, 3), tags=["missing-source", "dyndep", "deps", "built"]))
 
     return T
